@@ -15,16 +15,17 @@ import (
 // acc accumulates what one case observed; flushed into the report once per case (keeps the
 // report's mutex out of the inner loops).
 type acc struct {
-	c         *vkit.Case
-	r         *vkit.Report
-	evals     int
-	counts    map[[2]string]int
-	dist      []string
-	requests  int
-	endRe     int
-	integ     int // argument-integrity probes
-	posChecks int // source-position checks (position.go)
-	failed    bool
+	c          *vkit.Case
+	r          *vkit.Report
+	evals      int
+	counts     map[[2]string]int
+	dist       []string
+	requests   int
+	endRe      int
+	garbageSeq int // see gProbeIter
+	integ      int // argument-integrity probes
+	posChecks  int // source-position checks (position.go)
+	failed     bool
 	// sampleAt = k > 0: the k-th non-trivial triple of this case is written out as a sample (set by
 	// main for a few designated cases, so that the samples do not depend on scheduling).
 	sampleAt int
@@ -49,16 +50,95 @@ func (a *acc) tick() {
 	}
 }
 
-func newIterProbe[T any](a *acc, items []T) *vkit.ProbeIter[T] {
-	p := vkit.NewProbeIter(items)
-	p.OnNext = func(int) { a.tick() }
-	return p
+// gProbeIter / gProbeStream are the kit's probes with one hardening: the value returned TOGETHER
+// WITH the end (or an error) is non-zero garbage that changes from call to call. The Iterator
+// contract calls that value meaningless ("Once the iterator is finished, the first return is
+// meaningless"), the library's own iterators happen to return the zero value, a user-written one
+// may return anything; no combinator or reducer may look at it. Reference outputs never contain
+// garbage (items are >= 0, garbage ints are <= -777). Outer sources (iterators of iterators, streams
+// of streams, streams of slices) return a usable non-nil iterator / stream / a non-empty slice.
+type gProbeIter[T any] struct {
+	*vkit.ProbeIter[T]
+	ends *int // the case's garbage counter: no two end-of-iteration values of one case are alike
 }
 
-func newStreamProbe[T any](a *acc, name string, items []T) *vkit.ProbeStream[T] {
+func (p *gProbeIter[T]) Next() (T, bool) {
+	x, ok := p.ProbeIter.Next()
+	if !ok {
+		*p.ends++
+		return garbageOf[T](*p.ends), false
+	}
+	return x, true
+}
+
+type gProbeStream[T any] struct {
+	*vkit.ProbeStream[T]
+	ends *int
+}
+
+func (p *gProbeStream[T]) Next(ctx context.Context) (T, error) {
+	x, err := p.ProbeStream.Next(ctx)
+	if err != nil {
+		*p.ends++
+		return garbageOf[T](*p.ends), err
+	}
+	return x, nil
+}
+
+// garbageOf returns a non-zero value of T that no reference output contains.
+func garbageOf[T any](call int) T {
+	var v T
+	switch p := any(&v).(type) {
+	case *int:
+		*p = -777 - call
+	case *string:
+		*p = fmt.Sprintf("<garbage %d>", call)
+	case *[]int:
+		*p = []int{-777 - call, -778 - call} // a non-empty slice
+
+	case *iterator.Iterator[int]:
+		*p = &garbageIter{id: call} // a non-nil iterator that would yield items if it were used
+
+	case *stream.Stream[int]:
+		*p = &garbageStream{id: call}
+
+	}
+	return v
+}
+
+// garbageIter / garbageStream: what an outer source may hand back together with the end.
+// Each would yield two items and then end.
+type garbageIter struct{ id, given int }
+
+func (g *garbageIter) Next() (int, bool) {
+	if g.given >= 2 {
+		return 0, false
+	}
+	g.given++
+	return -9000 - g.id - g.given, true
+}
+
+type garbageStream struct{ id, given int }
+
+func (g *garbageStream) Next(context.Context) (int, error) {
+	if g.given >= 2 {
+		return 0, stream.End
+	}
+	g.given++
+	return -9000 - g.id - g.given, nil
+}
+func (g *garbageStream) Close() {}
+
+func newIterProbe[T any](a *acc, items []T) *gProbeIter[T] {
+	p := vkit.NewProbeIter(items)
+	p.OnNext = func(int) { a.tick() }
+	return &gProbeIter[T]{ProbeIter: p, ends: &a.garbageSeq}
+}
+
+func newStreamProbe[T any](a *acc, name string, items []T) *gProbeStream[T] {
 	p := vkit.NewProbeStream(name, items)
 	p.Delay = func(int) time.Duration { a.tick(); return 0 }
-	return p
+	return &gProbeStream[T]{ProbeStream: p, ends: &a.garbageSeq}
 }
 
 func guardPred(a *acc, f func(int) bool) func(int) bool {
@@ -140,7 +220,7 @@ func capPulls(calls int64, n int) int {
 	return int(calls)
 }
 
-func iterHandle[U any](p *vkit.ProbeIter[int], it iterator.Iterator[U]) handle[U] {
+func iterHandle[U any](p *gProbeIter[int], it iterator.Iterator[U]) handle[U] {
 	n := len(p.Items)
 	return handle[U]{
 		next:  it.Next,
@@ -163,7 +243,7 @@ func streamNext[U any](s stream.Stream[U]) func() (U, bool) {
 	}
 }
 
-func streamHandle[U any](p *vkit.ProbeStream[int], s stream.Stream[U]) handle[U] {
+func streamHandle[U any](p *gProbeStream[int], s stream.Stream[U]) handle[U] {
 	n := len(p.Items)
 	return handle[U]{
 		next:  streamNext(s),
@@ -805,7 +885,7 @@ type multiFlavour struct {
 
 var multiFlavours = []multiFlavour{
 	{"iterator", "Flatten", "", func(a *acc, parts [][]int) multiHandle {
-		probes := make([]*vkit.ProbeIter[int], len(parts))
+		probes := make([]*gProbeIter[int], len(parts))
 		its := make([]iterator.Iterator[int], len(parts))
 		for i, p := range parts {
 			probes[i] = newIterProbe(a, p)
@@ -821,7 +901,7 @@ var multiFlavours = []multiFlavour{
 		}
 	}},
 	{"iterator", "Flatten", " over iterator.Slice(args), args a sub-slice with spare capacity", func(a *acc, parts [][]int) multiHandle {
-		probes := make([]*vkit.ProbeIter[int], len(parts))
+		probes := make([]*gProbeIter[int], len(parts))
 		its := make([]iterator.Iterator[int], len(parts))
 		for i, p := range parts {
 			probes[i] = newIterProbe(a, p)
@@ -837,7 +917,7 @@ var multiFlavours = []multiFlavour{
 		}
 	}},
 	{"iterator", "Join", " (args a sub-slice with spare capacity)", func(a *acc, parts [][]int) multiHandle {
-		probes := make([]*vkit.ProbeIter[int], len(parts))
+		probes := make([]*gProbeIter[int], len(parts))
 		its := make([]iterator.Iterator[int], len(parts))
 		for i, p := range parts {
 			probes[i] = newIterProbe(a, p)
@@ -853,7 +933,7 @@ var multiFlavours = []multiFlavour{
 		}
 	}},
 	{"stream", "Flatten", "", func(a *acc, parts [][]int) multiHandle {
-		probes := make([]*vkit.ProbeStream[int], len(parts))
+		probes := make([]*gProbeStream[int], len(parts))
 		sts := make([]stream.Stream[int], len(parts))
 		for i, p := range parts {
 			probes[i] = newStreamProbe(a, fmt.Sprintf("part%d", i), p)
@@ -907,7 +987,7 @@ var multiFlavours = []multiFlavour{
 		}
 	}},
 	{"stream", "Join", " (args a sub-slice with spare capacity)", func(a *acc, parts [][]int) multiHandle {
-		probes := make([]*vkit.ProbeStream[int], len(parts))
+		probes := make([]*gProbeStream[int], len(parts))
 		sts := make([]stream.Stream[int], len(parts))
 		for i, p := range parts {
 			probes[i] = newStreamProbe(a, fmt.Sprintf("part%d", i), p)
